@@ -112,6 +112,32 @@ def run (H : Host) : List Instr → Stack → Option Stack
   | [], st => some st
   | i :: is, st => (step H i st).bind (run H is)
 
+/-! ### Allocation
+`VectorizeInstr` builds a new Go object on every execution (`&SexpArray{Val: vec}`), and so
+does `HashizeInstr` (`MakeHash`); `PushInstr{expr}` pushes the very object the generator was
+handed — the one that sits in the template's syntax tree, the same on every evaluation.
+`runA` is `run` that also reports, in order, the containers allocated on the way. -/
+
+/-- does a value hold an array or a hash anywhere inside? (lists, symbols, numbers and strings
+cannot be changed in place; arrays and hashes can) -/
+def hasContainer : Sexp → Bool
+  | .atom _ => false
+  | .nil => false
+  | .cons h t => hasContainer h || hasContainer t
+  | .arr _ => true
+  | .hash _ _ => true
+
+def stepA (H : Host) : Instr → Stack → Option (Stack × List Sexp)
+  | .vectorize, st =>
+    (popToMarker st).map (fun (xs, r) => (.val (.arr (mkList xs.reverse)) :: r, [.arr (mkList xs.reverse)]))
+  | .hashize ty, st =>
+    (popToMarker st).bind (fun (xs, r) => (H.mkHash ty xs.reverse).map (fun h => (.val h :: r, [h])))
+  | i, st => (step H i st).map (fun st' => (st', []))
+
+def runA (H : Host) : List Instr → Stack → Option (Stack × List Sexp)
+  | [], st => some (st, [])
+  | i :: is, st => (stepA H i st).bind (fun (st', a) => (runA H is st').map (fun (st'', b) => (st'', a ++ b)))
+
 /-- `len(quotebody) == 2` with a head symbol named `unquote` / `unquote-splicing`:
 `some (isSplice, e)`. `h`, `t` are head and tail of a proper list. -/
 def unqKind (h t : Sexp) : Option (Bool × Sexp) :=
